@@ -38,6 +38,20 @@ pub fn main_entry() {
         usage();
     }
     let id = args[1].to_uppercase();
+    // C18 is about panics that must be there in a release build: it runs in the second build of
+    // this binary, in which grenad (alone) is compiled WITHOUT debug assertions, so that a check
+    // demoted to debug_assert! counts as absent. Every other property runs in the main build, where
+    // debug assertions are on (a debug_assert! on untrusted input is a panic a dev build shows).
+    if id == "C18" && std::env::var_os("VCHECKS_NDA").is_none() {
+        let nda = vlib::report::verif_dir().join("harness/target/nda/release/vchecks");
+        match std::process::Command::new(&nda).args(&args[1..]).env("VCHECKS_NDA", "1").status() {
+            Ok(st) => std::process::exit(st.code().unwrap_or(3)),
+            Err(e) => {
+                eprintln!("MACHINERY-FAILURE: C18 needs the build without debug assertions ({}): {e}; run ./check --build", nda.display());
+                std::process::exit(3);
+            }
+        }
+    }
     quiet_panics();
     let code = if args[2] == "--replay" {
         if args.len() < 4 {
